@@ -29,8 +29,59 @@ def cfgs(tier):
     return out
 
 
+def models_and_replay(chk, tier):
+    import json, os
+    cfgs, expected = [], {}
+    i = 2150000
+    c = V.vroom_consts(4, 1, 1)
+    for hcap in (1, 2, 3):
+        R = 3 if tier == "quick" or hcap == 3 else 4
+        P = {"kind": "kary", "K": 2, "D": 1, "metric": "rank", "sd": c["sd"], "hcap": hcap, "S": V.S, "RU": 1, "w2": c["w2"], "invC": c["invC"], "band": 0, "rewards": [0, 1], "R": R, "emit": 0}
+        for emit in (0, 1):
+            P["emit"] = emit
+            if emit:
+                P["R"] = 2
+            pj = os.path.join(chk.wd, "vroom_h%d_%d.json" % (hcap, emit))
+            json.dump(P, open(pj, "w"))
+            cfg = chk.write_cfg("vroom_h%d_%d" % (hcap, emit), None, invariants=(["Emit"] if emit else ["InvRanks", "InvChain", "InvProbSum", "InvHistory", "InvCountLaw", "InvStruct"]))
+            os.environ["MC_PARAMS"] = pj
+            try:
+                r = chk.mc("MC_VROOM.tla", cfg, "vroom_h%d%s" % (hcap, "_emit" if emit else ""), count=not emit)
+            finally:
+                os.environ.pop("MC_PARAMS", None)
+            if emit:
+                beh = F.parse_behaviours(r.stdout)
+                chk.notes.setdefault("behaviours_enumerated", {})["hcap%d" % hcap] = len(beh)
+                rnd = random.Random(C.seed() + hcap)
+                rnd.shuffle(beh)
+                for h in beh[: (60 if tier == "quick" else 400)]:
+                    i += 1
+                    cfgs.append({"id": i, "algo": "VROOM", "kind": "bin", "K": 2, "D": 1, "box": [[0.0, 1.0]], "n": 4, "T": len(h), "prm": {"h_max": hcap, "b": 1, "f_max": 1}, "RU": 1,
+                                 "script": [[x[0][0] - 2, list(x[2])] for x in h], "rewards": [x[1] for x in h], "seed": 1, "glp": False})
+                    expected[i] = [list(x[0]) for x in h]
+                if len(chk.samples) < 2 and beh:
+                    chk.sample({"tlc_behaviour(chain of credited cells, reward, descent signs)": beh[0], "depth_cap": hcap})
+    chk.exhaustive = True
+    trs = S.pmap(V.run_vroom, cfgs)
+    for t in trs:
+        if "machinery" in t:
+            raise C.Machinery(t["machinery"])
+        if "script_mismatch" in t:
+            raise C.Machinery("scripted generator out of step with the implementation: %s %s" % (t["cfg"], t["script_mismatch"]))
+    chk.validate("Trace_VROOM.tla", "Trace_VROOM.cfg", trs, "vreplay", own=["vroom."], chunk=200, nontrivial=lambda t: True)
+    agree = 0
+    for t in trs:
+        obs = [sorted(x[0] for x in e["fc"]) for e in t["ev"] if e["k"] == "recv"]
+        if obs == [sorted(ch) for ch in expected[t["id"]]]:
+            agree += 1
+    chk.notes["replay"] = {"behaviours_replayed_with_scripted_sampling": len(trs), "credited_path_equals_the_behaviours_path": agree}
+    if agree != len(trs):
+        chk.violations.append(({"source": "replay", "what": "credited path differs from the TLC behaviour under scripted sampling", "agree": agree, "of": len(trs)}, os.path.join(chk.wd, "vreplay_000.json")))
+
+
 def run(tier):
     chk = F.Check("C13", tier)
+    models_and_replay(chk, tier)
     trs = [t for t in S.pmap(V.run_vroom, cfgs(tier)) if "skipped" not in t]
     chk.validate("Trace_VROOM.tla", "Trace_VROOM.cfg", trs, "vroom", own=["vroom."], chunk=40, nontrivial=lambda t: sum(1 for e in t["ev"] if e["k"] == "pull") >= 8)
     t = trs[0]
@@ -38,6 +89,6 @@ def run(tier):
     chk.notes["depth_cap_vs_ranking_depth"] = {"smaller": sum(1 for t in trs if t["P"]["hcap"] < t["P"]["sd"]), "equal": sum(1 for t in trs if t["P"]["hcap"] == t["P"]["sd"]), "larger": sum(1 for t in trs if t["P"]["hcap"] > t["P"]["sd"])}
     chk.assumptions = ["np.random.choice is trusted to sample according to the probability vector it is given; the vector itself, the ranks and the path are checked", "lower confidence values recomputed in fixed point (S = 2^12) with a band of 6 units for the order test", "binary-child partitions only, as the property states"]
     return chk.finish(
-        rule="TV: VROOM sessions (n in 8..256, depth cap below / at / above the ranking depth, binary-child partitions, dimensions 1..3, seeded sampling) validated by Trace_VROOM after every pull and every reward.  Non-trivial = accepted trace with >= 8 rounds.  (No exhaustive model in this round: the generative model would restate the sort; the state count is that of the trace validation.)",
+        rule="TV: VROOM sessions (n in 8..256, depth cap below / at / above the ranking depth, binary-child partitions, dimensions 1..3, seeded sampling) validated by Trace_VROOM after every pull and every reward.  Non-trivial = accepted trace with >= 8 rounds.  MC: MC_VROOM on the complete tree of ranking depth 2 with depth caps 1, 2, 3 (below / at / above the ranking depth), every reward sequence, every admissible ranking, every drawn cell and descent; its behaviours are replayed into the implementation with np.random.choice / randint / uniform scripted.",
         explanation="Per pull: ranks of every depth 1..sd form a permutation of 1..2^h and are non-increasing in mean - sqrt(ln(4n^3/delta)/(2T)); prob[i] * h * rank = 1/C for every cell and the vector sums to one (2^-20 units); per reward: the credited cells form a root-ward connected descending path from a ranked cell down to the depth cap, every expansion of the round lies on it, and the returned point lies inside every cell of the path.",
     )
